@@ -5,9 +5,21 @@
 (* every buffer slot (alive, readable size, writable size, readable bytes).  *)
 EXTENDS Buffer, Json, IOUtils
 Log == ndJsonDeserialize(IOEnv.TRACE)
-VARIABLE l
+\* A writer may fill a reservation once and commit it in several hasWritten() calls ("wfill" fills min(n, free) bytes at
+\* writableBegin() without any call into the buffer, "commitp" is a bare hasWritten(n) of bytes filled before): fillN[b] bytes
+\* starting at stream position fillP[b] lie, uncommitted, behind the write position of b. Any other operation on b ends that.
+VARIABLES l, fillN, fillP
 ASSUME TLCSet(42, 0)
-tvars == <<vars, l>>
+tvars == <<vars, l, fillN, fillP>>
+Touch(S) == fillN' = [b \in B |-> IF b \in S THEN 0 ELSE fillN[b]] /\ UNCHANGED fillP
+WFill(b, n) == LET k == Min(n, free[b]) IN
+  /\ alive[b] /\ fillN' = [fillN EXCEPT ![b] = k] /\ fillP' = [fillP EXCEPT ![b] = pos] /\ pos' = pos + k
+  /\ UNCHANGED <<q, free, alive>> /\ ret' = <<"wfill", k>>
+CommitFilled(b, n) ==       \* hasWritten(n), n <= bytes filled before: exactly those bytes join the queue
+  /\ alive[b] /\ n <= fillN[b] /\ n <= free[b]
+  /\ q' = [q EXCEPT ![b] = RCat(q[b], Run(fillP[b], n))] /\ free' = [free EXCEPT ![b] = free[b] - n]
+  /\ fillN' = [fillN EXCEPT ![b] = @ - n] /\ fillP' = [fillP EXCEPT ![b] = @ + n]
+  /\ UNCHANGED <<alive, pos>> /\ ret' = <<"commitp", n>>
 
 Ev == Log[l]
 IsEv(e) == l <= Len(Log) /\ Log[l].e = e /\ l' = l + 1
@@ -15,26 +27,28 @@ W(b) == Log[l].st[b].w
 Post == \A b \in B : LET o == Log[l].st[b] IN
            /\ alive'[b] = o.a /\ q'[b] = o.q /\ RLen(q'[b]) = o.r /\ free'[b] = o.w
 
-TInit == Init /\ l = 1
+TInit == Init /\ l = 1 /\ fillN = [b \in B |-> 0] /\ fillP = [b \in B |-> 0]
 TReset == IsEv("Reset") /\ q' = [b \in B |-> <<>>] /\ free' = [b \in B |-> 0] /\ alive' = [b \in B |-> FALSE]
-          /\ pos' = 0 /\ ret' = <<"init">>
+          /\ pos' = 0 /\ ret' = <<"init">> /\ fillN' = [b \in B |-> 0] /\ fillP' = [b \in B |-> 0]
 TNext ==
   \/ TReset
-  \/ IsEv("construct") /\ Construct(Ev.b, Ev.n) /\ Post          \* Buffer(n): n writable bytes, as documented
-  \/ IsEv("destroy") /\ Destroy(Ev.b) /\ Post
-  \/ IsEv("append") /\ BAppend(Ev.b, Ev.n, W(Ev.b)) /\ Ev.ret = Ev.n /\ Post
-  \/ IsEv("ensure") /\ Ensure(Ev.b, Ev.n, W(Ev.b)) /\ Ev.ret = TRUE /\ Post
-  \/ IsEv("commit") /\ Commit(Ev.b, Ev.n) /\ Ev.ret = ret'[2] /\ Post
-  \/ IsEv("fetch") /\ Fetch(Ev.b, Ev.n, W(Ev.b)) /\ Ev.got = ret'[2] /\ Ev.ret = RLen(ret'[2]) /\ Post
-  \/ IsEv("consume") /\ Consume(Ev.b, Ev.n, W(Ev.b)) /\ Post
-  \/ IsEv("consumeall") /\ ConsumeAll(Ev.b, W(Ev.b)) /\ Post
-  \/ IsEv("shrink") /\ Shrink(Ev.b, W(Ev.b)) /\ Post
-  \/ IsEv("reset") /\ Reset(Ev.b, W(Ev.b)) /\ Post
-  \/ IsEv("copyc") /\ CopyConstruct(Ev.b, Ev.s, W(Ev.b)) /\ Post
-  \/ IsEv("copya") /\ CopyAssign(Ev.b, Ev.s, W(Ev.b)) /\ Post
-  \/ IsEv("movec") /\ MoveConstruct(Ev.b, Ev.s, W(Ev.s)) /\ Post
-  \/ IsEv("movea") /\ MoveAssign(Ev.b, Ev.s, W(Ev.s)) /\ Post
-  \/ IsEv("swap") /\ Swap(Ev.b, Ev.s) /\ Post
+  \/ IsEv("construct") /\ Construct(Ev.b, Ev.n) /\ Post /\ Touch({Ev.b})          \* Buffer(n): n writable bytes, as documented
+  \/ IsEv("destroy") /\ Destroy(Ev.b) /\ Post /\ Touch({Ev.b})
+  \/ IsEv("append") /\ BAppend(Ev.b, Ev.n, W(Ev.b)) /\ Ev.ret = Ev.n /\ Post /\ Touch({Ev.b})
+  \/ IsEv("ensure") /\ Ensure(Ev.b, Ev.n, W(Ev.b)) /\ Ev.ret = TRUE /\ Post /\ Touch({Ev.b})
+  \/ IsEv("commit") /\ Commit(Ev.b, Ev.n) /\ Ev.ret = ret'[2] /\ Post /\ Touch({Ev.b})
+  \/ IsEv("fetch") /\ Fetch(Ev.b, Ev.n, W(Ev.b)) /\ Ev.got = ret'[2] /\ Ev.ret = RLen(ret'[2]) /\ Post /\ Touch({Ev.b})
+  \/ IsEv("consume") /\ Consume(Ev.b, Ev.n, W(Ev.b)) /\ Post /\ Touch({Ev.b})
+  \/ IsEv("consumeall") /\ ConsumeAll(Ev.b, W(Ev.b)) /\ Post /\ Touch({Ev.b})
+  \/ IsEv("shrink") /\ Shrink(Ev.b, W(Ev.b)) /\ Post /\ Touch({Ev.b})
+  \/ IsEv("reset") /\ Reset(Ev.b, W(Ev.b)) /\ Post /\ Touch({Ev.b})
+  \/ IsEv("copyc") /\ CopyConstruct(Ev.b, Ev.s, W(Ev.b)) /\ Post /\ Touch({Ev.b, Ev.s})
+  \/ IsEv("copya") /\ CopyAssign(Ev.b, Ev.s, W(Ev.b)) /\ Post /\ Touch({Ev.b, Ev.s})
+  \/ IsEv("movec") /\ MoveConstruct(Ev.b, Ev.s, W(Ev.s)) /\ Post /\ Touch({Ev.b, Ev.s})
+  \/ IsEv("movea") /\ MoveAssign(Ev.b, Ev.s, W(Ev.s)) /\ Post /\ Touch({Ev.b, Ev.s})
+  \/ IsEv("wfill") /\ WFill(Ev.b, Ev.n) /\ Ev.ret = ret'[2] /\ Post
+  \/ IsEv("commitp") /\ CommitFilled(Ev.b, Ev.n) /\ Post
+  \/ IsEv("swap") /\ Swap(Ev.b, Ev.s) /\ Post /\ Touch({Ev.b, Ev.s})
 TSpec == TInit /\ [][TNext]_tvars
 
 Progress == TLCSet(42, IF l > TLCGet(42) THEN l ELSE TLCGet(42))
